@@ -159,65 +159,8 @@ def nontrivial(run):
         any(op[0] == 'to_string' and op[1] for op in run.ops)
 
 
-def shards(ctx):
-    te = gen.types_and_elements()
-    jobs = [{'mode': 'exh', 'types': part} for part in gen.chunk(te, 12)]
-    for i in range(12):
-        jobs.append({'mode': 'random', 'index': i})
-    for i in range(4):
-        jobs.append({'mode': 'leaf-classes', 'index': i})
-    return jobs
-
-
-def run_shard(ctx, shard, acc):
+def make_body(ctx, acc):
     s = schema()
-    if shard['mode'] == 'exh':
-        for t, els in shard['types']:
-            for ops in enum_histories(t, 3, 5 if ctx.quick else 6):
-                if ops[-1][0] == 'to_string':
-                    continue
-                run, f = execute(els[0], ops + [['to_string', 0], ['to_string', 1]])
-                acc.case({'element': els[0], 'ops': run.ops}, nontrivial(run), len(run.ops))
-                if f:
-                    acc.fail(f, raise_=False)
-        return
-    if shard['mode'] == 'leaf-classes':
-        # every class (also those without element content): construction, attributes, values, unknown names
-        names = sorted(s.element_type)
-
-        def body(data):
-            el = data.draw(st.sampled_from(names))
-            run = Run(el)
-            if run.e is None:
-                _, f = execute(el, [])
-                acc.case({'element': el, 'ops': []}, True, 0)
-                if f:
-                    acc.fail(f)
-                return
-            for _ in range(data.draw(st.integers(1, 8))):
-                k = data.draw(st.sampled_from(['set_attr', 'set_attr', 'set_attr_none', 'set_value', 'read', 'read',
-                                               'add_foreign', 'add_junk', 'to_string']))
-                if k == 'read':
-                    nm = data.draw(st.sampled_from(['xml_bogus', 'bogus', 'xml_pitch', 'font_family', 'number',
-                                                    'type', 'id', 'xml_staff', 'placement', 'default_x', 'value',
-                                                    'lang', 'space', 'href', 'source']))
-                    op = ['read', nm]
-                elif k == 'add_foreign':
-                    op = ['add', data.draw(st.sampled_from(['pitch', 'words', 'staff', 'note']))]
-                elif k == 'add_junk':
-                    op = ['add_junk', data.draw(st.integers(0, 5))]
-                elif k == 'to_string':
-                    op = ['to_string', data.draw(st.integers(0, 1))]
-                else:
-                    op = draw_op(data, run, {kk: (1 if kk == k else 0) for kk in list(WEIGHTS) + ['deepcopy']})
-                with Watchdog(60):
-                    f = step(run, op)
-                if f:
-                    acc.case({'element': el, 'ops': run.ops}, True, len(run.ops))
-                    acc.fail(f)
-            acc.case({'element': el, 'ops': run.ops}, nontrivial(run), len(run.ops))
-        hyp_search(acc, body, mix(ctx.seed, 'C19l', shard['index']), ctx.budget(1500, 30000))
-        return
     te = gen.types_and_elements(all_elements=not ctx.quick)
     maxops = 12 if ctx.quick else 30
 
@@ -256,4 +199,74 @@ def run_shard(ctx, shard, acc):
         acc.case({'element': el, 'ops': run.ops}, nontrivial(run), len(run.ops))
         for fl in sorted(run.flags):
             acc.count(fl)
+    return body
+
+
+def shards(ctx):
+    te = gen.types_and_elements()
+    jobs = [{'mode': 'exh', 'types': part} for part in gen.chunk(te, 12)]
+    for i in range(12):
+        jobs.append({'mode': 'random', 'index': i})
+    for i in range(4):
+        jobs.append({'mode': 'leaf-classes', 'index': i})
+    if not ctx.quick:
+        for i in range(4):
+            jobs.append({'mode': 'atheris', 'index': i})
+    return jobs
+
+
+def run_shard(ctx, shard, acc):
+    s = schema()
+    if shard['mode'] == 'exh':
+        for t, els in shard['types']:
+            for ops in enum_histories(t, 3, 8 if ctx.quick else 12):
+                if ops[-1][0] == 'to_string':
+                    continue
+                run, f = execute(els[0], ops + [['to_string', 0], ['to_string', 1]])
+                acc.case({'element': els[0], 'ops': run.ops}, nontrivial(run), len(run.ops))
+                if f:
+                    acc.fail(f, raise_=False)
+        return
+    if shard['mode'] == 'atheris':
+        from ..fuzz import run_atheris
+        run_atheris(ctx, acc, 'C19', shard['index'], seconds=int(120 * ctx.scale) or 10)
+        return
+    if shard['mode'] == 'leaf-classes':
+        # every class (also those without element content): construction, attributes, values, unknown names
+        names = sorted(s.element_type)
+
+        def body(data):
+            el = data.draw(st.sampled_from(names))
+            run = Run(el)
+            if run.e is None:
+                _, f = execute(el, [])
+                acc.case({'element': el, 'ops': []}, True, 0)
+                if f:
+                    acc.fail(f)
+                return
+            for _ in range(data.draw(st.integers(1, 8))):
+                k = data.draw(st.sampled_from(['set_attr', 'set_attr', 'set_attr_none', 'set_value', 'read', 'read',
+                                               'add_foreign', 'add_junk', 'to_string']))
+                if k == 'read':
+                    nm = data.draw(st.sampled_from(['xml_bogus', 'bogus', 'xml_pitch', 'font_family', 'number',
+                                                    'type', 'id', 'xml_staff', 'placement', 'default_x', 'value',
+                                                    'lang', 'space', 'href', 'source']))
+                    op = ['read', nm]
+                elif k == 'add_foreign':
+                    op = ['add', data.draw(st.sampled_from(['pitch', 'words', 'staff', 'note']))]
+                elif k == 'add_junk':
+                    op = ['add_junk', data.draw(st.integers(0, 5))]
+                elif k == 'to_string':
+                    op = ['to_string', data.draw(st.integers(0, 1))]
+                else:
+                    op = draw_op(data, run, {kk: (1 if kk == k else 0) for kk in list(WEIGHTS) + ['deepcopy']})
+                with Watchdog(60):
+                    f = step(run, op)
+                if f:
+                    acc.case({'element': el, 'ops': run.ops}, True, len(run.ops))
+                    acc.fail(f)
+            acc.case({'element': el, 'ops': run.ops}, nontrivial(run), len(run.ops))
+        hyp_search(acc, body, mix(ctx.seed, 'C19l', shard['index']), ctx.budget(1500, 30000))
+        return
+    body = make_body(ctx, acc)
     hyp_search(acc, body, mix(ctx.seed, 'C19', shard['index']), ctx.budget(900, 18000))
